@@ -34,6 +34,7 @@ class Ctx:
         self.stats = {}
         self.quiet = quiet
         self._escapes = {}
+        self.stopped_early = None
         self.t0 = time.time()
 
     # -------------------------------------------------------------- services
@@ -83,12 +84,19 @@ class Ctx:
         if not cond:
             raise AnalysisError(msg)
 
-    def floor(self, what, count, minimum):
-        """A rule matching fewer sites than confirmed by hand cannot pass vacuously."""
+    def floor(self, what, count, minimum, rule=None):
+        """A rule matching fewer sites than confirmed by hand cannot pass vacuously.
+        Without `rule` the anchor is structural (the analysis itself is in doubt): ANALYSIS-ERROR, exit 2.
+        With `rule` the anchor is the guard / test / reset the property relies on: its absence is the violation."""
         self.stats[what] = count
         if count < minimum:
+            if rule is not None:
+                self.bad(rule, (rule, 'missing', what), 'the code no longer contains %s (found %d, the property needs at least %d)'
+                         % (what, count, minimum))
+                return False
             raise AnalysisError('anchor vanished: %s matched %d site(s), expected at least %d'
                                 % (what, count, minimum))
+        return True
 
 
 def load_known():
@@ -106,7 +114,15 @@ def key_str(k):
 def run_rules(prop, tier='quick', root=None):
     ctx = Ctx(prop, tier, root)
     mod = importlib.import_module('sa.rules.' + prop.lower())
-    mod.run(ctx)
+    try:
+        mod.run(ctx)
+    except Exception as ex:
+        # a construct was already reported as a violation: the later rules could not be evaluated on this tree
+        # (usually because they build on the construct that is gone); report what was found instead of hiding it
+        if not ctx.violations:
+            raise
+        ctx.note('analysis stopped after the reported violation(s): %s: %s' % (type(ex).__name__, str(ex)[:200]))
+        ctx.stopped_early = '%s: %s' % (type(ex).__name__, str(ex)[:200])
     return ctx, mod
 
 
@@ -211,6 +227,8 @@ def main(argv):
             rc = 1
         if not a.no_evidence:
             write_evidence(ctx, mod, time.time() - t0, len(new), extra)
+        if ctx.stopped_early:
+            print('NOTE property=%s later rules were not evaluated on this tree (%s)' % (prop, ctx.stopped_early))
         nob = len(ctx.obligations)
         print('%s: %d obligations, %d discharged, %d known finding(s), %d new violation(s) [%s, %.2fs]'
               % (prop, nob, sum(1 for o in ctx.obligations if o['ok']), len(old), len(new), a.tier,
